@@ -91,6 +91,38 @@ def bip158(ex, outs, dup):
     return claims
 
 
+@ob("C17", "bip158_match_any_is_membership_of_any_query", quick=[dict(outs=1, q=3), dict(outs=1, q=2)], thorough=[dict(outs=1, q=q) for q in (1, 2, 3)] + [dict(outs=2, q=2)],
+    bound="a filter of 2..3 elements (as above) asked about q scripts at once -- the first one is in the block, the others are not -- with SipHash an arbitrary function, so the queries' range values "
+          "fall below, between, on and above the filter's in every order: match_any answers True exactly when some query's value is one of the filter's values (never a false negative: the block's own script matches), "
+          "and the empty query list is answered False",
+    stubs=["hashes.siphash is an uninterpreted 64-bit function of the element"],
+    functions=["btclib.block.block_filter.BasicBlockFilter.match_any", "btclib.block.block_filter._golomb_decode"], min_ok=1, timeout=900, max_decisions=20000)
+def bip158_match_any(ex, outs, q):
+    sip = ex.uf("siphash", 8)
+    cache = {}
+
+    def fake_siphash(k0, k1, data):
+        data = bytes(data)
+        if data not in cache:
+            cache[data] = int.from_bytes(sip(data), "little")
+        return cache[data]
+    ex.stub(bf.siphash, fake_siphash)
+    out_scripts = _SCRIPTS[:outs]
+    spent = [_SCRIPTS[3]]
+    elements = sorted(set(out_scripts) | set(spent))
+    F = len(elements) * _M
+    f = bf.BasicBlockFilter.from_block(_block(out_scripts), spent)
+    values = [(fake_siphash(0, 0, e) * F) >> 64 for e in elements]
+    absent = [b"\x53", b"\x00\x14" + b"\x44" * 20]
+    queries = ([out_scripts[0]] + absent)[:q]
+    queries = queries[1:] + queries[:1]            # the present one last in the caller's order (the walk sorts by value anyway)
+    targets = [(fake_siphash(0, 0, e) * F) >> 64 for e in queries]
+    want = sor(*[t == v for t in targets for v in values])
+    got = f.match_any(queries)
+    return {"match_any_is_membership_of_any_query": iff(got == True, want), "own_script_is_never_missed": got == True,   # noqa: E712
+            "empty_query_is_false": f.match_any([]) == False}   # noqa: E712
+
+
 # ------------------------------------------------------------------ BIP141 witness commitment
 from btclib import hashes as _hashes
 
